@@ -62,7 +62,7 @@ def region_check(c, k, op, tol):
 
 # ---------------------------------------------------------------------------------------------
 
-def plan_core(prop, rng, pairs, prec="f64", dbg=False, with_subdiv=False):
+def plan_core(prop, rng, pairs, prec="f64", dbg=False, with_subdiv=False, ops=None):
     """C01 / C02 / C04: every op on every pair, region + validity + provenance oracles"""
     cases = []
     for idx, (fam, a, b) in enumerate(pairs):
@@ -70,7 +70,7 @@ def plan_core(prop, rng, pairs, prec="f64", dbg=False, with_subdiv=False):
         tol = tol_for(fam, a, b, prec)
         c = Case("%s-%s-%d" % (prop, fam, idx), fam)
         first = None
-        for op in OPS:
+        for op in (ops or OPS):
             pairing = pairing_for(rng, a, b)
             k = c.run(bool_req(prec, op, dbg, BUDGET, pairing, a, b))
             if first is None:
@@ -294,7 +294,11 @@ SYM = {
 }
 
 
-def far_part(rng, a, b, where, shape):
+def far_part(rng, a, b, where, shape, perp="same", huge=False):
+    """a part far away from both operands.  `perp`: its extent across the direction of displacement relative to
+    the operands' box (same / narrow: strictly inside / wide: sticking out on both sides); `huge`: displaced
+    by 2^60, where one ulp is larger than the operands' features (rectangles only; all coordinates stay
+    representable)"""
     bb = [gen.bbox(a), gen.bbox(b)]
     bb = [x for x in bb if x]
     x0 = min(x[0] for x in bb); y0 = min(x[1] for x in bb)
@@ -313,7 +317,26 @@ def far_part(rng, a, b, where, shape):
     if not isf:
         ox, oy, w = int(math.floor(ox)), int(math.floor(oy)), int(math.ceil(w))
     if shape == "rect":
-        ring = [(ox, oy), (ox + w, oy), (ox + w, oy + w), (ox, oy + w), (ox, oy)]
+        wx, wy = w, w
+        if huge:
+            big = 2 ** 60
+            if where == "left":
+                ox, wx = -big - 2 ** 12, 2 ** 12
+            elif where == "right":
+                ox, wx = big, 2 ** 12
+            elif where == "above":
+                oy, wy = big, 2 ** 12
+            else:
+                oy, wy = -big - 2 ** 12, 2 ** 12
+            if isf:
+                ox, oy, wx, wy = float(ox), float(oy), float(wx), float(wy)
+        if perp != "same":
+            q = (w / 4) if isf else Fraction(w, 4)
+            if where in ("left", "right"):
+                oy, wy = (oy + q, q) if perp == "narrow" else (oy - w, 3 * w)
+            else:
+                ox, wx = (ox + q, q) if perp == "narrow" else (ox - w, 3 * w)
+        ring = [(ox, oy), (ox + wx, oy), (ox + wx, oy + wy), (ox, oy + wy), (ox, oy)]
     elif shape == "pentagon":
         # a part whose upper boundary has an edge ending early while its bottom edge goes on
         ring = [(ox, oy), (ox + 3 * w, oy), (ox + 3 * w, oy + w), (ox + w, oy + w), (ox + w / 2 if isf else ox + max(1, w // 2), oy + 2 * w), (ox, oy)]
@@ -334,14 +357,16 @@ def plan_c09(rng, pairs):
                 operand_checks(c, k0)
                 first = False
             for where in rng.sample(["left", "right", "above", "below"], 2):
-                shape = rng.choice(["rect", "pentagon", "tri"])
-                part = far_part(rng, a, b, where, shape)
+                shape = rng.choice(["rect", "rect", "pentagon", "tri"])
+                part = far_part(rng, a, b, where, shape, perp=rng.choice(["same", "narrow", "wide"]), huge=(rng.random() < 0.25))
                 side = rng.choice(["a", "b"])
+                first_in_list = rng.random() < 0.5
                 # the extra part travels as the subject of an auxiliary run so that formulas can name it
                 kp = c.run(bool_req("f64", "U", False, BUDGET, "MM", part, []))
-                a2 = a + part if side == "a" else a
-                b2 = b + part if side == "b" else b
-                t = num.enc(tol_for(fam, a2, b2))
+                a2 = ((part + a) if first_in_list else (a + part)) if side == "a" else a
+                b2 = ((part + b) if first_in_list else (b + part)) if side == "b" else b
+                # the tolerance follows the operands, not the displacement of the far part
+                t = num.enc(tol_for(fam, a, b))
                 k = c.run(bool_req("f64", op, False, BUDGET, "MM", a2, b2))
                 present = op in ("U", "X") or (op == "D" and side == "a")
                 if present:
